@@ -69,9 +69,12 @@ def model_ints(m, wrong, witness):
         if wrong is not None and wrong is not True:
             m.solver.add(wrong)
         r = m.solver.check()
-        if r != z3.sat:
-            return None
-        mdl = m.solver.model()
+        if r == z3.sat:
+            mdl = m.solver.model()
+        else:
+            r, mdl = m.check_fresh(wrong if (wrong is not None and wrong is not True) else True, want_model=True)
+            if r != z3.sat:
+                return None
         out = {}
         for k, t in witness.items():
             if E.is_sym(t):
